@@ -17,10 +17,10 @@ Proved for all strings and all numbers (no bounds):
   (string → digits → version round trip through `Nat.toDigits`, the `python_full_version` padding included) and
   environment value texts `X'.Y'…`; plus the token-level statements for finals of any length;
 * their composition for every marker text (`parse_eval_agree_partial`).
-`python_version in "X.Y …"` (a `VersionUnion` of ranges; C05's `union_allows_total`).
-Stated, not proved (`leaf_agree_full_statement`): `python_version not in`, `python_full_version in / not in`
-(they need `VersionUnion.of` on Version members and `VersionUnion ∩ VersionUnion` total with a sorted result, open
-in C05).  Where the statement is FALSE of model and code: concrete witnesses (`counterexample_*`).
+`python_version in "X.Y …"` and `python_full_version in "X.Y.Z …"` (`VersionUnion.of` of ranges / versions;
+C05's `union_allows_total`, `unionOfFlat_reg`).
+Stated, not proved (`leaf_agree_full_statement`): `python_version not in`, `python_full_version not in` (a fold of
+`VersionUnion ∩ VersionUnion`; needs the shape-agnostic totality of `VC.intersect`, in progress in C05).  Where the statement is FALSE of model and code: concrete witnesses (`counterexample_*`).
 -/
 import PoetryVerif.Proofs.MarkerEval
 import PoetryVerif.Proofs.MarkerLeaf
@@ -287,6 +287,21 @@ theorem leaf_agree_python_version_in (E : Env) (p0 : Nat × Nat) (rest : List (S
 
 example : verList2 (3, 8) [(" ", (3, 9)), (", ", (3, 10))] = "3.8 3.9, 3.10" := by decide +kernel
 
+/-- **`python_full_version in "X0.Y0.Z0 …"`** (tokens of three or more components; two-component tokens are read
+as wildcards by the code: `counterexample_pfv_list_two_component`): `==X0.Y0.Z0 || …`, a `VersionUnion.of` of
+versions; on every final environment value it is equality with one of the tokens (C05's `unionOfFlat_reg`,
+`VC.allows_of_reg`) -/
+theorem leaf_agree_python_full_version_in (E : Env) (t0 : VTok) (rest : List (String × VTok))
+    (hs : ∀ q ∈ rest, SepRun q.1) (h3 : ∀ t ∈ t0 :: rest.map (·.2), 2 ≤ t.2.length) (x' : Nat) (r' : List Nat)
+    (hev : E.get? "python_full_version" = some (Version.relText (x' :: r'))) :
+    ∃ b, itemV E "python_full_version" "in" (verListN t0 rest) false = .ok b ∧
+      evalItem "python_full_version" "in" (verListN t0 rest) false E = some b := by
+  obtain ⟨b, h1, h2, _⟩ := agree_pfv_in E t0 rest hs h3 x' r' hev
+  exact ⟨b, h1, h2⟩
+
+example : verListN (3, [8, 1]) [("|", (3, [9, 0]))] = "3.8.1|3.9.0" ∧
+    ∀ t ∈ [((3 : Nat), [8, 1]), (3, [9, 0])], 2 ≤ t.2.length := ⟨by decide +kernel, by decide⟩
+
 /-! ### the domain -/
 
 /-- the comparison operators of version variables -/
@@ -329,6 +344,11 @@ inductive ProvedLeaf (E : Env) : String → String → String → Bool → Prop
   | pvIn (p0 : Nat × Nat) (rest : List (String × (Nat × Nat))) (x' y' : Nat) : (∀ q ∈ rest, SepRun q.1) →
       E.get? "python_version" = some (relLit [x', y']) →
       ProvedLeaf E "python_version" "in" (verList2 p0 rest) false
+  /-- `python_full_version in "X0.Y0.Z0 …"` (tokens of three or more components) -/
+  | pfvIn (t0 : VTok) (rest : List (String × VTok)) (x' : Nat) (r' : List Nat) : (∀ q ∈ rest, SepRun q.1) →
+      (∀ t ∈ t0 :: rest.map (·.2), 2 ≤ t.2.length) →
+      E.get? "python_full_version" = some (relLit (x' :: r')) →
+      ProvedLeaf E "python_full_version" "in" (verListN t0 rest) false
   /-- `python_version ~= "X.Y…"` (two or more components) -/
   | pvCompat (x : Nat) (r : List Nat) (x' : Nat) (r' : List Nat) : 1 ≤ r.length →
       E.get? "python_version" = some (relLit (x' :: r')) →
@@ -348,16 +368,15 @@ inductive DomainLeaf (E : Env) : String → String → String → Bool → Prop
   | pvNotIn (p0 : Nat × Nat) (rest : List (String × (Nat × Nat))) (x' y' : Nat) : (∀ q ∈ rest, SepRun q.1) →
       E.get? "python_version" = some (relLit [x', y']) →
       DomainLeaf E "python_version" "not in" (verList2 p0 rest) false
-  /-- `python_full_version in "X.Y.Z …"` -/
-  | pfvList (op : String) (x0 : Nat × Nat × Nat) (rest : List (String × (Nat × Nat × Nat))) (x' : Nat)
-      (r' : List Nat) : op ∈ ["in", "not in"] → (∀ p ∈ rest, SepRun p.1) →
+  /-- `python_full_version not in "X0.Y0.Z0 …"` (tokens of three or more components) -/
+  | pfvNotIn (t0 : VTok) (rest : List (String × VTok)) (x' : Nat) (r' : List Nat) : (∀ q ∈ rest, SepRun q.1) →
+      (∀ t ∈ t0 :: rest.map (·.2), 2 ≤ t.2.length) →
       E.get? "python_full_version" = some (relLit (x' :: r')) →
-      DomainLeaf E "python_full_version" op
-        (listLit (relLit [x0.1, x0.2.1, x0.2.2]) (rest.map fun p => (p.1, relLit [p.2.1, p.2.2.1, p.2.2.2]))) false
+      DomainLeaf E "python_full_version" "not in" (verListN t0 rest) false
 
 /-- C06's leaf statement at full strength: on every leaf of the domain the model has a value and the reference
 has the same.  Proved for `ProvedLeaf` (`leaf_agree_partial`); the remaining constructors are open, and
-`counterexample_pfv_list_two_component` shows why `pfvList` demands three components. -/
+`counterexample_pfv_list_two_component` shows why `pfvIn`/`pfvNotIn` demand three components. -/
 def leaf_agree_full_statement : Prop :=
   ∀ (E : Env) (n op v : String) (sw : Bool), DomainLeaf E n op v sw →
     ∃ b, itemV E n op v sw = .ok b ∧ evalItem n op v sw E = some b
@@ -377,6 +396,7 @@ theorem leaf_agree_partial (E : Env) (n op v : String) (sw : Bool) (h : ProvedLe
   | .pfv2 sop ops x y x' r' hop hev => exact agree_pfv2 E sop ops hop x y x' r' hev
   | .pfv3 sop ops x r x' r' hop hr hev => exact agree_pfv3 E sop ops hop x r hr x' r' hev
   | .pvIn p0 rest x' y' hs hev => exact agree_pv_in E p0 rest hs x' y' hev
+  | .pfvIn t0 rest x' r' hs h3 hev => exact agree_pfv_in E t0 rest hs h3 x' r' hev
   | .pvCompat x r x' r' hr hev => exact agree_pv_compat E x r hr x' r' hev
   | .pfvCompat x r x' r' hr hev => exact agree_pfv3_compat E x r hr x' r' hev
 
@@ -498,7 +518,7 @@ theorem single_item_marker (E : Env) (n op v : String) (sw : Bool) (b : Bool)
 
 /-- **Known finding `pfv-list-two-component`**: `python_full_version in "3.8 3.9"` — a two-component token on
 `python_full_version` is rewritten to the wildcard `3.8.*`, so the marker is TRUE on 3.8.10, where the reference
-(token equality, `3.8.10 == 3.8` false) says FALSE.  Hence `DomainLeaf.pfvList` demands three components. -/
+(token equality, `3.8.10 == 3.8` false) says FALSE.  Hence `ProvedLeaf.pfvIn` / `DomainLeaf.pfvNotIn` demand three components. -/
 theorem counterexample_pfv_list_two_component :
     ∃ syn m, parseText "python_full_version in \"3.8 3.9\"" = .ok syn ∧ compactRaw syn = .ok m ∧
       M.validate cxEnv38 m = .ok true ∧ evalSyn cxEnv38 syn = some false := by
